@@ -230,11 +230,15 @@ macro_rules! run_one {
         if $path == 2 {
             bytes.extend_from_slice(b"{\"parameters\":{\"first\":true}}\0");
         }
+        if $path == 3 {
+            // the reply under test follows a reply that continues (it is the next item of a stream)
+            bytes.extend_from_slice(b"{\"parameters\":{\"first\":true},\"continues\":true}\0");
+        }
         bytes.extend_from_slice(f.text.as_bytes());
         bytes.push(0);
         wire.arrive(&bytes);
         let mut conn = wire.connection();
-        if $path == 2 {
+        if $path >= 2 {
             // the reply under test is the second frame of one arrival: the first one is taken off first
             match complete_or_stall(conn.receive_reply::<Value, E0>()) {
                 Some(Ok(Ok(_))) => {}
@@ -293,7 +297,7 @@ macro_rules! run_one {
     }};
 }
 
-const PATHS: [&str; 3] = ["receive_reply", "call_method", "receive_reply, as the second frame of one arrival"];
+const PATHS: [&str; 4] = ["receive_reply", "call_method", "receive_reply, as the second frame of one arrival", "receive_reply, right after a reply that continues"];
 const NP: usize = 5;
 const NE: usize = 3;
 
@@ -358,7 +362,7 @@ fn one(fr: &[Frame], i: u64, sink: &mut Sink<'_>) {
 pub fn run(tier: Tier) -> i32 {
     let mut rep = Report::new("C04", tier.name());
     let (fr, nbase) = all_frames();
-    rep.rule = format!("complete product: {} reply frames ({nbase} base frames + each bulked up to 300/1100/2100/4700 bytes in up to four meaning-preserving ways: whitespace, an unknown member in front / at the end, a long string parameter; + each with its member names spelled with JSON escapes; base frames: success / declared unit and struct errors with right, wrong-typed, missing, extra, absent parameters / undeclared errors / the six org.varlink.service errors with and without their parameters / error replies whose parameters fit the expected success type; x continues absent|true|false x every member order) x 5 expected parameter types x 3 error types (derived, derived with lifetime, empty enum) x {{receive_reply, call_method, receive_reply as the second frame of one arrival}}. Distinct = distinct (frame, types, classification)", fr.len());
+    rep.rule = format!("complete product: {} reply frames ({nbase} base frames + each bulked up to 300/1100/2100/4700 bytes in up to four meaning-preserving ways: whitespace, an unknown member in front / at the end, a long string parameter; + each with its member names spelled with JSON escapes; base frames: success / declared unit and struct errors with right, wrong-typed, missing, extra, absent parameters / undeclared errors / the six org.varlink.service errors with and without their parameters / error replies whose parameters fit the expected success type; x continues absent|true|false x every member order) x 5 expected parameter types x 3 error types (derived, derived with lifetime, empty enum) x {{receive_reply, call_method, receive_reply as the second frame of one arrival, receive_reply right after a reply with continues:true}}. Distinct = distinct (frame, types, classification)", fr.len());
     rep.assumptions = vec![
         "an error type `recognises` a reply iff the reply's error name is one of its declared variants and serde_json decodes the frame as that type".into(),
         "a standard error is one whose name is in org.varlink.service and which decodes as varlink_service::Error; ill-formed ones must simply not be a success".into(),
